@@ -2,7 +2,7 @@
 import json, os
 import vlib
 
-CLOSURE = ["Model/BgpAds.v", "Model/Speaker.v", "Proofs/BgpAdsP.v", "Proofs/SpeakerP.v", "Proofs/SpeakerRefuted.v"]
+CLOSURE = ["Model/BgpAds.v", "Model/Speaker.v", "Proofs/BgpAdsP.v", "Proofs/BgpAdsElig.v", "Proofs/SpeakerP.v", "Proofs/SpeakerRefuted.v"]
 OVERLAY = {"internal/layer2/zz_verif_spk.go": os.path.join(os.path.dirname(os.path.dirname(os.path.abspath(__file__))),
                                                           "harness", "internal", "layer2", "zz_verif_spk.go")}
 
